@@ -108,6 +108,59 @@ void h_PCA(void)
 }
 #endif
 
+#ifdef VC_UNIT_SCORE
+/* PCAScorePredictor on its real body: the product kernel accumulates into its output (C13: "into a zero-initialised
+ * output"), so the predictor must hand it a zeroed score vector for EVERY component, whatever the processor count;
+ * loadings column pc is the one used for component pc; the stored averages/scalings are applied (option -1). */
+static size_t mv_calls, prep_calls2;
+static int prep_type2;
+static dvector *prep_avg, *prep_sc;
+static double lcell[GMAX][GMAX];
+static void vc_prep2(matrix *o, int type, dvector *avg, dvector *sc, matrix *tr)
+{
+  prep_calls2++; prep_type2 = type; prep_avg = avg; prep_sc = sc;
+  VC_CHECK("preprocessing output has the shape of the input", tr->row == o->row && tr->col == o->col);
+}
+static void vc_mv2(matrix *E, dvector *p, dvector *t)
+{
+  size_t c = mv_calls++;
+  VC_CHECK("score kernel operands conform (p has one entry per variable, t one per object)", p->size == E->col && t->size == E->row);
+  for(size_t i = 0; i < t->size; i++)
+    VC_CHECK("the accumulating product kernel is handed a zeroed score vector for every component", t->data[i] == 0.0);
+  for(size_t j = 0; j < p->size && j < GMAX; j++)
+    VC_CHECK("component pc is projected on column pc of the stored loadings", c >= GMAX || VC_SAME(p->data[j], lcell[j][c]));
+  for(size_t i = 0; i < t->size; i++) t->data[i] = (double)(c + 1);   /* recorded score of this component */
+}
+static double vc_dot2(dvector *a, dvector *b) { (void)a; (void)b; return 1.0; }
+#define MatrixPreprocess vc_prep2
+#define MT_MatrixDVectorDotProduct vc_mv2
+#define DVectorDVectorDotProd vc_dot2
+#include "pca.c"
+#ifndef VC_REQ
+#define VC_REQ 2
+#endif
+void h_PCAScorePredictor(void)
+{
+  matrix *mx, *ps;
+  PCAMODEL *model;
+  NewMatrix(&mx, VC_R, VC_C); initMatrix(&ps);
+  NewPCAModel(&model);
+  ResizeMatrix(model->loadings, VC_C, VC_NPC);
+  for(size_t j = 0; j < VC_C; j++) for(size_t k = 0; k < VC_NPC; k++) { lcell[j][k] = VC_IN_DBL(); VC_ASSUME(lcell[j][k] > -1e3 && lcell[j][k] < 1e3); model->loadings->data[j][k] = lcell[j][k]; }
+  mv_calls = 0; prep_calls2 = 0;
+  PCAScorePredictor(mx, model, VC_REQ, ps);
+  size_t npc = VC_REQ > VC_NPC ? VC_NPC : VC_REQ;
+  VC_CHECK("ScorePredictor: scores are objects x min(requested, stored) components", ps->row == VC_R && ps->col == npc);
+  VC_CHECK("ScorePredictor: the data are transformed once with the STORED averages and scalings (option -1)", prep_calls2 == 1 && prep_type2 == -1 &&
+           prep_avg == model->colaverage && prep_sc == model->colscaling);
+  VC_CHECK("ScorePredictor: one projection per component", mv_calls == npc);
+  for(size_t k = 0; k < npc; k++)
+    for(size_t i = 0; i < VC_R; i++)
+      VC_CHECK("ScorePredictor: column k of the result holds component k's scores", ps->data[i][k] == (double)(k + 1));
+  VC_REACH();
+}
+#endif
+
 #ifdef VC_UNIT_PRED
 #include "pca.h"
 #ifndef VC_GI
